@@ -114,7 +114,8 @@ theorem exists_of_endsWith {r : Option KState} {p : KState → Bool} (h : endsWi
 /-- the kanata-level components no configuration without custom actions and overrides ever moves:
 no custom action table, no overrides, nothing left over from an override pass, `cur_keys` empty
 (between ticks), no unmod / unshift keys, no caps-word, no scrolling or mouse movement, no on-idle
-action pending, no timed virtual key, no cancel-on-press window -/
+action pending, no timed virtual key, no cancel-on-press window, sequence mode off and no
+`sequence-always-on` (without a custom action nothing can turn it on) -/
 structure KRest (k : KState) : Prop where
   customs : k.customs = []
   noOvr : k.overrides.isEmpty = true
@@ -130,6 +131,7 @@ structure KRest (k : KState) : Prop where
   wfi : k.waitingForIdle = []
   vk : k.vkeysPendingRelease = []
   mcd : k.macroOnPressCancelDuration = 0
+  seqOff : k.seq.off = true      -- [seq] sequence mode off, `sequence-always-on` not configured
 
 /-- `k'` is `k` except for the output written, `prev_keys` and `last_pressed_key` -/
 def OutFrame (k k' : KState) : Prop :=
@@ -225,8 +227,12 @@ theorem handleKeystateChanges_rest (k : KState) (hr : KRest k) (l' : Layout)
   obtain ⟨o, p, lp, hk2⟩ := (releaseOld_frame ({ k with layout := l', overrideStates := k.overrideStates } : KState)
       l'.keycodes false).trans (pressNew_frame _ l'.keycodes)
   refine ⟨o, p, lp, ?_⟩
+  have hoff : (releaseOld ({ k with layout := l', overrideStates := k.overrideStates } : KState) l'.keycodes false).seq.off = true := by
+    rw [releaseOld_seq]; exact hr.seqOff
+  have hh := seqReleasedHook_inactive _ l'.keycodes (off_inactive _ hoff)
+  have hp := pressLoop_off l'.keycodes l'.keycodes _ hoff
   unfold handleKeystateChanges
-  simp only [hl, applyUnmodEvent, hadj, hov, hr.ovrClean, eraseOverridden_nil, hcw, hk2, hkcCustom]
+  simp only [hl, applyUnmodEvent, hadj, hov, hr.ovrClean, eraseOverridden_nil, hcw, hh, hp, hk2, hkcCustom]
 
 /-- **one whole `tick_states` with the kanata-level components at rest**: the layout's tick returned
 no custom event (otherwise the empty custom-action table is a crash), the state afterwards holds the
@@ -261,18 +267,20 @@ theorem tickStates_rest (k k' : KState) (hr : KRest k) (ht : tickStates k = .ok 
     obtain ⟨o, p, lp, hkc⟩ := handleKeystateChanges_rest k hr l' hl
     have e2 := handleScrolling_none ({ k with layout := l', out := o, prevKeys := p, lastPressedKey := lp, curKeys := l'.keycodes } : KState) hr.scroll hr.hscroll
     have e3 := handleMoveMouse_none ({ k with layout := l', out := o, prevKeys := p, lastPressedKey := lp, curKeys := l'.keycodes } : KState) hr.moveV hr.moveH
+    have e3s := tickSequenceState_inactive ({ k with layout := l', out := o, prevKeys := p, lastPressedKey := lp, curKeys := l'.keycodes } : KState) (off_inactive _ hr.seqOff)
     have e4 := tickIdleTimeout_nil ({ k with layout := l', out := o, prevKeys := p, lastPressedKey := lp, curKeys := l'.keycodes } : KState) hr.wfi
     have e5 := tickHeldVkeys_nil ({ k with layout := l', out := o, lastPressedKey := lp, macroOnPressCancelDuration := k.macroOnPressCancelDuration - 1, prevKeys := l'.keycodes, curKeys := [] } : KState) hr.vk
     unfold tickStates at ht
     simp only [hkc] at ht
     rw [e2] at ht; simp only [] at ht
     rw [e3] at ht; simp only [] at ht
+    rw [e3s] at ht; simp only [] at ht
     rw [e4] at ht; simp only [] at ht
     rw [e5] at ht
     injection ht with ht
     subst ht
     refine ⟨rfl, rfl, hr.customs, hr.noOvr, hr.ovrClean, rfl, hr.unmod, hr.unshift, hr.caps, hr.scroll,
-      hr.hscroll, hr.moveV, hr.moveH, hr.wfi, hr.vk, ?_⟩
+      hr.hscroll, hr.moveV, hr.moveH, hr.wfi, hr.vk, ?_, hr.seqOff⟩
     show k.macroOnPressCancelDuration - 1 = 0
     rw [hr.mcd]
 
@@ -302,7 +310,7 @@ theorem handleInput_rest (k k' : KState) (hr : KRest k) (i : Input) (h : handleI
     · cases h
     · rename_i l he
       injection h with h; subst h
-      exact ⟨⟨hr.customs, hr.noOvr, hr.ovrClean, hr.cur, hr.unmod, hr.unshift, hr.caps, hr.scroll, hr.hscroll, hr.moveV, hr.moveH, hr.wfi, hr.vk, rfl⟩, rfl, he⟩
+      exact ⟨⟨hr.customs, hr.noOvr, hr.ovrClean, hr.cur, hr.unmod, hr.unshift, hr.caps, hr.scroll, hr.hscroll, hr.moveV, hr.moveH, hr.wfi, hr.vk, rfl, hr.seqOff⟩, rfl, he⟩
   | release code =>
     unfold handleInputEvent at h
     simp only [] at h
@@ -310,7 +318,7 @@ theorem handleInput_rest (k k' : KState) (hr : KRest k) (i : Input) (h : handleI
     · cases h
     · rename_i l he
       injection h with h; subst h
-      exact ⟨⟨hr.customs, hr.noOvr, hr.ovrClean, hr.cur, hr.unmod, hr.unshift, hr.caps, hr.scroll, hr.hscroll, hr.moveV, hr.moveH, hr.wfi, hr.vk, hr.mcd⟩, rfl, he⟩
+      exact ⟨⟨hr.customs, hr.noOvr, hr.ovrClean, hr.cur, hr.unmod, hr.unshift, hr.caps, hr.scroll, hr.hscroll, hr.moveV, hr.moveH, hr.wfi, hr.vk, hr.mcd, hr.seqOff⟩, rfl, he⟩
   | tap code =>
     unfold handleInputEvent at h
     simp only [] at h
@@ -321,10 +329,11 @@ theorem handleInput_rest (k k' : KState) (hr : KRest k) (i : Input) (h : handleI
       · cases h
       · rename_i l he
         injection h with h; subst h
-        exact ⟨⟨hr.customs, hr.noOvr, hr.ovrClean, hr.cur, hr.unmod, hr.unshift, hr.caps, hr.scroll, hr.hscroll, hr.moveV, hr.moveH, hr.wfi, hr.vk, hr.mcd⟩, rfl, l1, he1, he⟩
+        exact ⟨⟨hr.customs, hr.noOvr, hr.ovrClean, hr.cur, hr.unmod, hr.unshift, hr.caps, hr.scroll, hr.hscroll, hr.moveV, hr.moveH, hr.wfi, hr.vk, hr.mcd, hr.seqOff⟩, rfl, l1, he1, he⟩
   | rep code =>
     unfold handleInputEvent handleRepeat at h
-    simp only [] at h
+    have hina : k.seq.st.active = false := off_inactive _ hr.seqOff
+    simp only [hina, Bool.false_and, Bool.false_eq_true, if_false] at h
     rw [overrideKeys_empty k.overrides hr.noOvr] at h
     simp only [] at h
     split at h
@@ -337,10 +346,10 @@ theorem handleInput_rest (k k' : KState) (hr : KRest k) (i : Input) (h : handleI
         rw [ho] at h
         subst h
         exact ⟨⟨hr.customs, hr.noOvr, hr.ovrClean, rfl, hr.unmod, hr.unshift, hr.caps, hr.scroll, hr.hscroll,
-          hr.moveV, hr.moveH, hr.wfi, hr.vk, hr.mcd⟩, rfl, rfl⟩
+          hr.moveV, hr.moveH, hr.wfi, hr.vk, hr.mcd, hr.seqOff⟩, rfl, rfl⟩
       · subst h
         exact ⟨⟨hr.customs, hr.noOvr, hr.ovrClean, rfl, hr.unmod, hr.unshift, hr.caps, hr.scroll, hr.hscroll,
-          hr.moveV, hr.moveH, hr.wfi, hr.vk, hr.mcd⟩, rfl, rfl⟩
+          hr.moveV, hr.moveH, hr.wfi, hr.vk, hr.mcd, hr.seqOff⟩, rfl, rfl⟩
 
 /-- the blocking decision only updates `ticks_since_idle` -/
 theorem canBlock_fields (k : KState) (ms : Nat) :
@@ -409,7 +418,7 @@ theorem reach_inv {P : Layout → Prop} {g : Layout → Bool} (hP : LayoutInv P 
     rw [ht]
     exact ⟨⟨ih.rest.customs, ih.rest.noOvr, ih.rest.ovrClean, ih.rest.cur, ih.rest.unmod, ih.rest.unshift,
       ih.rest.caps, ih.rest.scroll, ih.rest.hscroll, ih.rest.moveV, ih.rest.moveH, ih.rest.wfi, ih.rest.vk,
-      ih.rest.mcd⟩, ih.lay, ih.sync⟩
+      ih.rest.mcd, ih.rest.seqOff⟩, ih.lay, ih.sync⟩
 
 /-- **the hypotheses of `block_silent` hold whenever the invariant does and kanata is idle** -/
 theorem mayBlock_of_inv {P : Layout → Prop} {g : Layout → Bool} (hP : LayoutInv P g) {k : KState}
@@ -627,7 +636,7 @@ def freshK (cfg : LCfg) (tv2 dfl qth : Bool) (osd : Nat) (keyOutputs : List (Lis
 
 theorem freshK_start (cfg : LCfg) (tv2 dfl qth : Bool) (osd : Nat) (ko : List (List (Nat × List Nat)))
     (mods : ModCodes) : KStart (freshK cfg tv2 dfl qth osd ko mods) :=
-  ⟨⟨rfl, rfl, rfl, rfl, rfl, rfl, rfl, rfl, rfl, rfl, rfl, rfl, rfl, rfl⟩, rfl⟩
+  ⟨⟨rfl, rfl, rfl, rfl, rfl, rfl, rfl, rfl, rfl, rfl, rfl, rfl, rfl, rfl, rfl⟩, rfl⟩
 
 /-- generic: along every reachable state the hypotheses of `block_silent` hold when kanata is idle -/
 theorem mayBlock_reachable {P : Layout → Prop} {g : Layout → Bool} (hP : LayoutInv P g) {k0 k : KState}
